@@ -73,6 +73,9 @@ impl RegsAny {
 
 /// Builds the real `Module` for an abstract description.
 pub fn build_module(arch: Arch, name: &str, m: &ModSpec) -> Module<Bytes> {
+    if let DataSpec::Pe(funcs) = &m.data {
+        return crate::pe::build_pe_module(name, m, funcs);
+    }
     let text_svma = m.base_svma.wrapping_add(m.start.wrapping_sub(m.base_avma));
     let text_svma_end = m.base_svma.wrapping_add(m.end.wrapping_sub(m.base_avma));
     let eh_frame_svma = text_svma_end.wrapping_add(0x1000) & !7;
@@ -83,7 +86,7 @@ pub fn build_module(arch: Arch, name: &str, m: &ModSpec) -> Module<Bytes> {
         ..Default::default()
     };
     match &m.data {
-        DataSpec::None => {}
+        DataSpec::None | DataSpec::Pe(_) => {}
         DataSpec::Dwarf(pres, fdes) => match pres {
             Pres::Hdr | Pres::Idx => {
                 let enc = if cfi::enc_fits(m.enc, fdes, eh_frame_svma, text_svma) {
@@ -434,7 +437,7 @@ impl<H: ArchH> World<H> {
                     }
                     Err(loc) => {
                         obs.panicked = Some(loc);
-                        "panic".into()
+                        format!("panic {} t={}", show_stats(&st), (obs.section_touches > 0) as u8)
                     }
                 }
             }
